@@ -48,3 +48,10 @@ VARIANTS = [
          [(ES, "            return self.process_non_subcircuit_block(block)", "            return BlockStatement(parallel=block.parallel, statements=[self.visit(stmt) for stmt in block.statements])")],
          ("C10.5", "visit_BlockStatement:nested-plain-block"), P),
 ]
+
+VARIANTS += [
+    # reverting part of fix ca227b4
+    fire("c10-override-ignored-without-flag",
+         [(PA, "        if not (expand_let or expand_let_map):\n            raise JaqalError(\n                \"override_dict only takes effect with expand_let or expand_let_map\"\n            )\n", "")],
+         ("C10.1", "parse_jaqal_string:override-never-ignored"), P),
+]
